@@ -39,8 +39,10 @@ Print Assumptions C17_freeze_resolves_eagerly.
    Fragment: `declared_before_captured B e` (Lang/FreezeDbc.v) - no name that freeze resolves inside
    a lambda is declared by a scope enclosing that lambda; the first iteratee of a for loop
    declares nothing; values frozen into the source contain no closures.
-   Conclusion: the frozen run ends (same fuel), with a related store, the same printed output and
-   a related result (`rres`: value / thrown value related by `vrel`, or both left the vocabulary). *)
+   Conclusion: the protected run is the run of the plain evaluator (`noprot`), and the plain
+   evaluator on the frozen expression ends (same fuel) with a related store, the same printed
+   output and a related result (`rres`: value / thrown value related by `vrel`, or both left the
+   vocabulary). *)
 Theorem C17_freeze_preserves : forall (n0 cur0 : nat) (look : name -> option val), cur0 < n0 ->
   forall (B : list name) (e e' : expr) (B' : list name) (st st' : state) (fuel : nat) (st1 : state) (r : res val),
     freeze look B e = Ok (e', B') ->
@@ -49,12 +51,13 @@ Theorem C17_freeze_preserves : forall (n0 cur0 : nat) (look : name -> option val
     agree n0 cur0 look (rn B e) (frames st) ->
     eval (prot0 n0 (rn B e)) fuel st cur0 e = (st1, r) ->
     r <> OutOfFuel -> r <> Sig STrap ->
+    eval noprot fuel st cur0 e = (st1, r) /\
     exists st1' r',
-      eval (prot0 n0 (rn B e)) fuel st' cur0 e' = (st1', r') /\
+      eval noprot fuel st' cur0 e' = (st1', r') /\
       srel n0 cur0 look (rn B e) st1 st1' /\
       out st1 = out st1' /\
       rres n0 cur0 look (rn B e) (vrel n0 cur0 look (rn B e)) (frames st1) r r'.
-Proof. exact freeze_preserves. Qed.
+Proof. exact freeze_preserves_plain. Qed.
 Print Assumptions C17_freeze_preserves.
 
 (* for every argument tuple: related function values (a lambda and its frozen form, by the theorem
